@@ -338,11 +338,15 @@ impl Store {
 
         // Handle broadcast subscription and heartbeat
         if let Some(broadcast_rx) = broadcast_rx {
+            // Dropped when live delivery ends (limit reached, subscriber lagged, receiver
+            // gone, history cancelled): the heartbeat must not outlive it.
+            let (live_ended_tx, mut live_ended_rx) = tokio::sync::oneshot::channel::<()>();
             {
                 let tx = tx.clone();
                 let limit = options.limit;
 
                 tokio::spawn(async move {
+                    let _live_ended_tx = live_ended_tx;
                     // If we have a done_rx, wait for historical processing
                     let (last_id, mut count) = match done_rx {
                         Some(done_rx) => match done_rx.await {
@@ -389,7 +393,10 @@ impl Store {
                 let heartbeat_tx = tx;
                 tokio::spawn(async move {
                     loop {
-                        tokio::time::sleep(duration).await;
+                        tokio::select! {
+                            _ = &mut live_ended_rx => break,
+                            _ = tokio::time::sleep(duration) => {}
+                        }
                         let frame =
                             Frame::builder("xs.pulse", options.context_id.unwrap_or(ZERO_CONTEXT))
                                 .id(scru128::new())
